@@ -19,6 +19,7 @@ import (
 
 	"github.com/google/gce-tcb-verifier/endorse"
 	"github.com/google/gce-tcb-verifier/keys"
+	"github.com/google/gce-tcb-verifier/ovmf"
 	epb "github.com/google/gce-tcb-verifier/proto/endorsement"
 	"github.com/google/gce-tcb-verifier/sev"
 	"github.com/google/gce-tcb-verifier/tdx"
@@ -85,15 +86,19 @@ func mrtd(img []byte, tag, shape, mode string) ([]byte, error) {
 		return v, nil
 	}
 	ldMu.Unlock()
+	// the shape's RAM banks come from MeasureTdx.tla's shape table, not from the code that is being
+	// compared with (shapeBanks is filled by RunC06 before any row runs)
 	var o *tdx.LaunchOptions
 	switch mode {
 	case "default":
 		o = tdx.LaunchOptionsDefault("")
 	case "measure_all":
-		o = tdx.LaunchOptionsDefaultTDHOBBug(shape)
+		o = &tdx.LaunchOptions{GuestRAMBanks: shapeBanks[shape], MeasureAllRegions: true}
 	default:
-		o = tdx.LaunchOptionsDefaultTDHOBBug(shape)
-		o.DisableUnacceptedMemory = true
+		o = &tdx.LaunchOptions{GuestRAMBanks: shapeBanks[shape], MeasureAllRegions: true, DisableUnacceptedMemory: true}
+	}
+	if mode != "default" && shapeBanks[shape] == nil {
+		return nil, fmt.Errorf("no RAM banks for shape %q in the specification's shape table", shape)
 	}
 	v, err := tdx.MRTD(o, img)
 	if err != nil {
@@ -105,12 +110,14 @@ func mrtd(img []byte, tag, shape, mode string) ([]byte, error) {
 	return v[:], nil
 }
 
+var shapeBanks map[string][]ovmf.GuestPhysicalRegion
+
 var ramOf = map[string]uint32{"c3-standard-4": 16, "c3-standard-8": 32, "c3-standard-88": 352}
 
 const imageID = "0a1b2c3d-4e5f-6071-8293-a4b5c6d7e8f9"
 
 func checkRow(run *vk.Run, r reqRow, raw string) {
-	ts := time.Date(2025, 3, 4, 5, 6, 7, 0, time.UTC)
+	ts := time.Date(2025, 3, 4, 5, 6, 7, 123456789, time.UTC) // a timestamp is a time to the nanosecond
 	ec := &endorse.Context{Image: img2m, Timestamp: ts}
 	svn := uint32(7)
 	if r.Snp {
@@ -267,6 +274,10 @@ func RunC06(run *vk.Run) {
 	}
 	em, err := vk.RunTLC(vk.TLCOpts{Module: "Golden", Config: "Emit_Golden.cfg", Workers: 1, Timeout: 10 * time.Minute})
 	if err != nil {
+		run.Infra(err)
+		return
+	}
+	if shapeBanks, err = meas.ShapeBanks(run); err != nil {
 		run.Infra(err)
 		return
 	}
